@@ -8,7 +8,7 @@ exec >$log 2>&1
 set -x
 cd $wt || exit 9
 export CARGO_NET_OFFLINE=true CARGO_TARGET_DIR=$wt/target
-git stash -u -q; git stash drop -q    # whatever the agent left; re-apply only patch.diff
+
 git checkout -q -- . ; git clean -fdq -e target
 git apply $out/patch.diff || { echo RESULT patch-does-not-apply; exit 1; }
 cargo test --workspace --no-fail-fast --offline 2>&1 | grep -E "^test result|FAILED|failed" | head
